@@ -2,12 +2,14 @@
 
 (M) Digest.tla: the site list (with duplicate end sites) and the double loop of fasta.py _cleavage_sites /
     _cleave, one action per code step, equals DigestDef!Digest (set comprehension over DISTINCT sites) for every
-    sequence over {K,P,M,F} up to length 4 (quick) / 6 (thorough) x 5 enzymes x missed cleavages 0..3 x length
-    bounds x clip x semi; monotone in missed cleavages / bounds / semi; every peptide a substring; three seeded
-    faults and the duplicate-site sensitivity config must be rejected.
+    sequence over {K,P,M,F} up to length 4 (quick; thorough: length 5 on the drivers' grid and length 4 with every
+    pair of bounds) x 5 enzymes x missed cleavages 0..3 x length bounds x clip x semi; monotone in missed
+    cleavages / bounds / semi; every peptide a substring; three seeded faults and the duplicate-site sensitivity
+    config must be rejected.
 (G) TLC enumerates every (sequence, enzyme) as CASE lines (length <= 5 quick / <= 7 thorough); the driver takes
-    the product with the parameter grid GRID (missed cleavages x bounds x clip x semi) and calls the real
-    mokapot.digest once per grid point; plus seeded random sequences of length 8..60 over the 20 amino acids.
+    the product with the parameter grid GRID (missed cleavages x bounds x clip x semi; half of it per group at
+    length 7) and calls the real mokapot.digest once per grid point; plus seeded random sequences of length
+    8..60 over the 20 amino acids.
 (V) DigestTrace.tla recomputes DigestDef!Digest for the recorded parameters and accepts a group of recorded calls
     on one (sequence, enzyme) iff every returned SET of peptide strings equals it, every peptide is a substring,
     and for every listed pair of calls whose parameters are ordered the smaller result is a subset of the larger.
@@ -59,6 +61,9 @@ def covering_pairs(params):
 
 
 GRID_PAIRS = covering_pairs(GRID)
+# thorough tier, sequences of length 7 only: half of the grid per group, the clip flag alternating with the group
+HALF = {c: [p for p in GRID if p[3] == c] for c in (False, True)}
+HALF_PAIRS = {c: covering_pairs(HALF[c]) for c in (False, True)}
 
 
 def defaults():
@@ -260,7 +265,11 @@ def run(ctx):
                                   "wall_s": round(gr.wall_s, 1), "note": "generation: %d CASE lines" % len(base)})
     cases = []
     for k, (seq, enz) in enumerate(base):
-        cases.append({"seq": seq, "enzyme": enz, "params": GRID, "pairs": GRID_PAIRS, "style": k % 2})
+        if len(seq) <= 6:
+            cases.append({"seq": seq, "enzyme": enz, "params": GRID, "pairs": GRID_PAIRS, "style": k % 2})
+        else:
+            c = bool(k % 2)
+            cases.append({"seq": seq, "enzyme": enz, "params": HALF[c], "pairs": HALF_PAIRS[c], "style": (k // 2) % 2})
     n_enum = len(cases)
     cases += random_cases(rng, 300 if ctx.quick else 4000)
     n_ood0 = len(cases)
@@ -351,7 +360,11 @@ def run(ctx):
              "pattern, keyword / positional); plus seeded random sequences of length 8..60 over the 20 amino acids with 8 "
              "settings each (one with the signature defaults). evaluations = calls of digest; traces = groups of calls on "
              "one (sequence, enzyme), each carrying %d ordered pairs for the monotonicity clause; distinct = distinct "
-             "(sequence, enzyme) with at least one non-empty digest" % (maxlen, len(GRID), BOUNDS, len(GRID_PAIRS)),
+             "(sequence, enzyme) with at least one non-empty digest%s" % (
+                 maxlen, len(GRID), BOUNDS, len(GRID_PAIRS),
+                 "" if ctx.quick else "; sequences of length 7 get half of the grid per (sequence, enzyme): all missed "
+                 "cleavages x bounds x semi with the clip flag alternating from one group to the next (64 settings, %d "
+                 "pairs), lengths 0..6 the full grid" % len(HALF_PAIRS[True])),
         exhaustive=True)
 
 
